@@ -16,6 +16,7 @@ from __future__ import annotations
 HELPERS = '''K0 = 3
 GC0 = fp.MPBFixedContext(-4, fp.RealFloat.from_int(100))
 GC1 = fp.FP16
+GC2 = fp.MPFixedContext(-3, nan_value=fp.Float.from_int(0))
 
 @fp.fpy
 def h0(p, q):
@@ -50,7 +51,7 @@ ROUND_CTXS = [
     'fp.MPFixedContext(-8, enable_nan=True, enable_inf=True)', 'fp.FixedContext(True, -4, 16)',
     'fp.SMFixedContext(-4, 12)', 'fp.REAL', 'fp.MPFloatContext(5)', 'fp.MPSFloatContext(5, -10)',
     'fp.FixedContext(True, -4, 16, fp.RM.RNE, fp.OV.SATURATE)', 'fp.FixedContext(False, -2, 8)',
-    'fp.MPFixedContext(-3, nan_value=fp.Float.from_int(0))', 'GC0', 'GC1', 'fp.INTEGER',
+    'GC2', 'GC0', 'GC1', 'fp.INTEGER',
 ]
 PLAIN_CTXS = ['fp.FP16', 'fp.FP32', 'fp.MPFloatContext(8)', 'fp.IEEEContext(5, 16, fp.RM.RTZ)', 'fp.REAL', 'fp.FP64']
 
@@ -149,6 +150,14 @@ class WGen:
         getattr(self, 'st_' + kind)(depth, env)
 
     def st_assign(self, depth, env):
+        if self.focus in ('rewrite', 'mixed') and self.ch.bool(0.2):
+            # the window a two-statement rule `y = a * b; z = c + d` matches
+            m, m2 = self.fresh('m'), self.fresh('m')
+            self.emit(depth, f'{m} = {self.leaf(env)} * {self.leaf(env)}')
+            env.append(m)
+            self.emit(depth, f'{m2} = {self.leaf(env)} + {self.leaf(env)}')
+            env.append(m2)
+            return
         m = self.fresh('m')
         if self.focus == 'rewrite' and self.ch.bool(0.3):
             # the shape a one-statement rule `y = a * b` matches
@@ -280,8 +289,13 @@ class WGen:
         else:
             for _ in range(n):
                 self.stmt(0, env)
-        ret = self.expr(env, 0)
-        self.emit(0, f'return {ret}')
+        if f in ('round', 'mixed') and ch.bool(0.3):
+            # a returned round: the rewrites bind it to a temporary and return that
+            self.emit(0, f'with {ch.choice(ROUND_CTXS)}:')
+            self.emit(1, f'return fp.round({self.var(env)})')
+        else:
+            ret = self.expr(env, 0)
+            self.emit(0, f'return {ret}')
         head = [deco, 'def main(a0: fp.Real, a1: fp.Real, xs: list[fp.Real]):']
         return HELPERS + '\n'.join(head + self.lines[body_start:]) + '\n'
 
@@ -301,3 +315,87 @@ INPUTS = [
     (2.0, 2.0, [7.0]),
     (3.0, -0.75, [1.0, 2.0, 3.0, 4.0, 5.0, 6.0]),
 ]
+
+
+# ---------------------------------------------------------------------------
+# bounded enumeration of small arrangements (sites / refusals / other statements, nested <= 2 deep)
+
+def _seqs(alpha, lo, hi):
+    import itertools
+    for n in range(lo, hi + 1):
+        yield from itertools.product(alpha, repeat=n)
+
+
+def enum_shapes(kind):
+    """All abstract programs of `kind`: a sequence of 1-2 items; an item is a leaf ('o' other, 's' site, 'r' refused)
+    or (C, body) with C in S (a compound that is itself a site), R (a refused compound), N (a compound that is
+    neither); bodies are sequences of 1-2 items one level simpler."""
+    if kind == 'for':
+        leaves, comp = ['o'], ['S', 'R', 'N']
+    elif kind == 'while':
+        leaves, comp = ['o'], ['S', 'N']
+    else:
+        leaves, comp = ['o', 's', 'r'], ['N']
+    d2 = list(leaves) + [(c, ('o',)) for c in comp if c != 'N']
+    bodies = list(_seqs(d2, 1, 2))
+    items = list(leaves) + [(c, b) for c in comp for b in bodies]
+    return list(_seqs(items, 1, 2))
+
+
+ENUM_TEXT = {
+    # kind: {symbol: header / leaf text with {m} the fresh watermark}
+    'for': {'o': '{m} = a0 + 1', 'S': 'for {i} in xs:', 'R': 'for {i} in range(3):', 'N': 'if a0 > 1:'},
+    'while': {'o': '{m} = a0 + 1', 'S': 'while {k} > 0:', 'N': 'if a0 > 1:'},
+    'call': {'o': '{m} = a0 + 1', 's': '{m} = h0(a0, a1)', 's2': '{m} = h0(h1(a0), a1)', 'r': '{m} = h2(a0)',
+             'N': 'for {i} in xs:', 'N2': 'if h0(a0, 1) > a1:'},
+    'round': {'o': '{m} = a0 + 1', 's': 'with {site}:\n{ind}    {m} = fp.round(a0)', 'r': 'with fp.REAL:\n{ind}    {m} = fp.round(a1)',
+              'N': 'for {i} in xs:', 'N2': 'if a0 > 1:'},
+}
+
+
+def render_shape(kind, shape, site_ctx='fp.FP16', variant=0):
+    """Source text of an enumerated shape; `variant` flips secondary choices (nested call sites, kind of the
+    neutral compound)."""
+    T = ENUM_TEXT[kind]
+    n = [0]
+    lines = []
+
+    def fresh(p, suf='x'):
+        s = f'{p}{n[0]:02d}{suf}'
+        n[0] += 1
+        return s
+
+    def emit(depth, text):
+        lines.append('    ' * (depth + 1) + text)
+
+    def item(it, depth):
+        ind = '    ' * (depth + 1)
+        if isinstance(it, str):
+            key = it
+            if it == 's' and 's2' in T and (variant + n[0]) % 3 == 0:
+                key = 's2'
+            for ln in T[key].format(m=fresh('m'), site=site_ctx, ind=ind).split('\n'):
+                lines.append(ind + ln if not ln.startswith(ind) else ln)
+            return
+        c, body = it
+        key = c
+        if c == 'N' and 'N2' in T and (variant + n[0]) % 2:
+            key = 'N2'
+        if kind == 'while' and c == 'S':
+            k = fresh('k', 'y')
+            emit(depth, f'{k} = 2')
+            emit(depth, T[key].format(k=k))
+            for b in body:
+                item(b, depth + 1)
+            emit(depth + 1, f'{k} = {k} - 1')
+            return
+        emit(depth, T[key].format(i=fresh('i')))
+        for b in body:
+            item(b, depth + 1)
+
+    for it in shape:
+        item(it, 0)
+    emit(0, f'{fresh("m")} = a1 + 2')
+    emit(0, 'return a0')
+    deco = '@fp.fpy(ctx=fp.REAL)' if kind == 'round' else '@fp.fpy'
+    return HELPERS + deco + '\ndef main(a0: fp.Real, a1: fp.Real, xs: list[fp.Real]):\n' + '\n'.join(lines) + '\n'
